@@ -260,6 +260,7 @@ class Repo:
             m_.repo = self
         self._canonical_names()
         self._fold_named_constants()
+        self._precompiled_patterns()
         self._getter_lambdas()
         self._bool_identity_tests()
         self._except_sentinels()
@@ -551,6 +552,50 @@ class Repo:
                 for c in sites:
                     c.ops = [ast.Is() if isinstance(c.ops[0], (ast.Eq, ast.Is)) else ast.IsNot()]
                     c.comparators = [ast.copy_location(ast.Constant(value=None), c.comparators[0])]
+
+    def _precompiled_patterns(self):
+        """A module-level `P = re.compile(E)` (bound once, never rebound in a function of the module) used as `P.match(x)` is
+        `re.match(E, x)`; a module-level `T2 = {k: re.compile(v) for k, v in T.items()}` used as `T2[K].match(x)` is
+        `re.match(T[K], x)` (in place, in the module that defines them)."""
+        METHS = ("match", "search", "fullmatch", "findall", "finditer", "split", "sub")
+        for mod in self.modules.values():
+            pats, tabs = {}, {}
+            stores = {}
+            for x in ast.walk(mod.tree):
+                if isinstance(x, ast.Name) and isinstance(x.ctx, ast.Store):
+                    stores[x.id] = stores.get(x.id, 0) + 1
+            for st in mod.tree.body:
+                if isinstance(st, ast.Assign) and len(st.targets) == 1 and isinstance(st.targets[0], ast.Name) and stores.get(st.targets[0].id) == 1:
+                    v = st.value
+                    if isinstance(v, ast.Call) and norm(v.func) == "re.compile" and v.args and not v.keywords:
+                        pats[st.targets[0].id] = v.args
+                    elif isinstance(v, ast.DictComp) and len(v.generators) == 1 and not v.generators[0].ifs:
+                        g = v.generators[0]
+                        if isinstance(g.target, ast.Tuple) and len(g.target.elts) == 2 and all(isinstance(e, ast.Name) for e in g.target.elts) and isinstance(g.iter, ast.Call) and isinstance(g.iter.func, ast.Attribute) and g.iter.func.attr == "items" and isinstance(g.iter.func.value, ast.Name) and not g.iter.args:
+                            kn, vn = g.target.elts[0].id, g.target.elts[1].id
+                            if isinstance(v.key, ast.Name) and v.key.id == kn and isinstance(v.value, ast.Call) and norm(v.value.func) == "re.compile" and len(v.value.args) == 1 and norm(v.value.args[0]) == vn and not v.value.keywords:
+                                tabs[st.targets[0].id] = g.iter.func.value.id
+            if not pats and not tabs:
+                continue
+            import copy as _copy
+
+            class T(ast.NodeTransformer):
+                def visit_Call(self, c):
+                    self.generic_visit(c)
+                    if isinstance(c.func, ast.Attribute) and c.func.attr in METHS:
+                        r = c.func.value
+                        if isinstance(r, ast.Name) and r.id in pats:
+                            new = ast.Call(func=ast.Attribute(value=ast.Name(id="re", ctx=ast.Load()), attr=c.func.attr, ctx=ast.Load()), args=[_copy.deepcopy(a) for a in pats[r.id]] + c.args, keywords=c.keywords)
+                            return ast.fix_missing_locations(ast.copy_location(new, c))
+                        if isinstance(r, ast.Subscript) and isinstance(r.value, ast.Name) and r.value.id in tabs:
+                            src = ast.Subscript(value=ast.Name(id=tabs[r.value.id], ctx=ast.Load()), slice=r.slice, ctx=ast.Load())
+                            new = ast.Call(func=ast.Attribute(value=ast.Name(id="re", ctx=ast.Load()), attr=c.func.attr, ctx=ast.Load()), args=[src] + c.args, keywords=c.keywords)
+                            return ast.fix_missing_locations(ast.copy_location(new, c))
+                    return c
+
+            for f in mod.funcs.values():
+                if f.parent is None:
+                    T().visit(f.node)
 
     def _getter_lambdas(self):
         """`operator.itemgetter(2)` / `itemgetter(1, 2)` / `attrgetter("start")` with constant arguments are written as the
@@ -2639,6 +2684,23 @@ def string_builders(func):
         j = joins[nm][0]
         if all(func.before(a, j) for a in appends[nm]) and all(func.before(i_, a) for i_ in inits[nm] for a in appends[nm]):
             ok.add(nm)
+    # the same name used for several builders one after the other (one per branch): init_1 .. appends .. join_1, init_2 .. join_2
+    for nm in inits:
+        if nm in other or nm in func.params or nm in ok or len(joins.get(nm, [])) < 2 or len(joins[nm]) != len(inits[nm]) or not appends.get(nm):
+            continue
+        evs = sorted([(func.pos(i_), "i") for i_ in inits[nm]] + [(func.pos(j_), "j") for j_ in joins[nm]] + [(func.pos(a_), "a") for a_ in appends[nm]])
+        state, good = "out", True
+        for _p, k_ in evs:
+            if k_ == "i" and state == "out":
+                state = "in"
+            elif k_ == "a" and state == "in":
+                pass
+            elif k_ == "j" and state == "in":
+                state = "out"
+            else:
+                good = False
+        if good and state == "out":
+            ok.add(nm)
     if not ok:
         return func
     # L = [X] with X a local string that is not touched again: X itself goes on as the accumulator
@@ -2737,6 +2799,57 @@ def while_next_loops(func):
 
     root = copy.deepcopy(func.node)
     root.body = block(root.body)
+
+    # primed form over an explicit iterator of a file / list (whose items are never None):
+    #     it = iter(H); x = next(it, None); while x is not None: BODY; x = next(it, None)      ->   for x in H: BODY
+    # (BODY without `continue` of its own, `it` used nowhere else, x not read after the loop)
+    def primed(lst):
+        i = 0
+        while i + 2 < len(lst):
+            a, b, w = lst[i], lst[i + 1], lst[i + 2]
+            ok = isinstance(a, ast.Assign) and len(a.targets) == 1 and isinstance(a.targets[0], ast.Name) and isinstance(a.value, ast.Call) and norm(a.value.func) == "iter" and len(a.value.args) == 1
+            if ok:
+                it = a.targets[0].id
+
+                def is_next(st_, var=None):
+                    return isinstance(st_, ast.Assign) and len(st_.targets) == 1 and isinstance(st_.targets[0], ast.Name) and (var is None or st_.targets[0].id == var) and isinstance(st_.value, ast.Call) and norm(st_.value.func) == "next" and len(st_.value.args) == 2 and norm(st_.value.args[0]) == it and isinstance(st_.value.args[1], ast.Constant) and st_.value.args[1].value is None
+
+                ok = is_next(b)
+                if ok:
+                    x = b.targets[0].id
+                    ok = isinstance(w, ast.While) and not w.orelse and norm(w.test) == f"{x} is not None" and w.body and is_next(w.body[-1], x)
+                    if ok:
+                        body = w.body[:-1]
+                        own_cont = any(isinstance(y, ast.Continue) for y in _own_level(body))
+                        it_uses = sum(1 for y in ast.walk(root) if isinstance(y, ast.Name) and y.id == it)
+                        x_after = any(isinstance(y, ast.Name) and y.id == x and isinstance(y.ctx, ast.Load) for st_ in lst[i + 3 :] for y in ast.walk(st_))
+                        x_stored_in = any(isinstance(y, ast.Name) and y.id == x and isinstance(y.ctx, ast.Store) for st_ in body for y in ast.walk(st_))
+                        if not own_cont and it_uses == 3 and not x_after and not x_stored_in:
+                            new = ast.For(target=ast.Name(id=x, ctx=ast.Store()), iter=a.value.args[0], body=body or [ast.Pass()], orelse=[])
+                            ast.copy_location(new, w)
+                            lst[i : i + 3] = [new]
+                            changed[0] = True
+                            continue
+            i += 1
+
+    def _own_level(stmts):
+        for st_ in stmts:
+            yield st_
+            if isinstance(st_, (ast.For, ast.While, ast.FunctionDef, ast.ClassDef)):
+                continue
+            for fld in ("body", "orelse", "finalbody"):
+                sub = getattr(st_, fld, None)
+                if isinstance(sub, list) and sub and isinstance(sub[0], ast.stmt):
+                    yield from _own_level(sub)
+            if isinstance(st_, ast.Try):
+                for h in st_.handlers:
+                    yield from _own_level(h.body)
+
+    for parent in list(ast.walk(root)):
+        for fld in ("body", "orelse", "finalbody"):
+            lst = getattr(parent, fld, None)
+            if isinstance(lst, list) and lst and isinstance(lst[0], ast.stmt):
+                primed(lst)
     # it = <call>; for x in it: ...   (it read nowhere else)
     uses, stores = {}, {}
     for n in ast.walk(root):
@@ -3989,6 +4102,74 @@ def inline_object_aliases(func):
         if id(st) in defs:
             continue
         R().visit(st)
+    ast.fix_missing_locations(node)
+    return Func(func.module, func.qualname, node, func.cls, func.parent)
+
+
+def inline_single_use_generators(func):
+    """A Func in which `g = (E for t in R)` (one clause, no filter) directly followed by `for x in g: B`, g used nowhere else,
+    is written `for t in R: x = E; B`: the generator is consumed once, item by item, by the loop that follows it."""
+    import copy
+
+    node = copy.deepcopy(func.node)
+    changed = [False]
+    loads, stores = {}, {}
+    for n in ast.walk(node):
+        if isinstance(n, ast.Name):
+            d_ = stores if isinstance(n.ctx, ast.Store) else loads
+            d_[n.id] = d_.get(n.id, 0) + 1
+    for parent in ast.walk(node):
+        for fld in ("body", "orelse", "finalbody"):
+            lst = getattr(parent, fld, None)
+            if not (isinstance(lst, list) and lst and isinstance(lst[0], ast.stmt)):
+                continue
+            i = 0
+            while i + 1 < len(lst):
+                a, b = lst[i], lst[i + 1]
+                if isinstance(a, ast.Assign) and len(a.targets) == 1 and isinstance(a.targets[0], ast.Name) and isinstance(a.value, ast.GeneratorExp) and len(a.value.generators) == 1 and not a.value.generators[0].ifs and isinstance(b, ast.For) and isinstance(b.iter, ast.Name) and b.iter.id == a.targets[0].id and loads.get(b.iter.id, 0) == stores.get(b.iter.id, 0) and not b.orelse:
+                    g = a.value.generators[0]
+                    bind = ast.Assign(targets=[b.target], value=a.value.elt)
+                    ast.copy_location(bind, b)
+                    new = ast.For(target=g.target, iter=g.iter, body=[bind] + b.body, orelse=[])
+                    ast.copy_location(new, b)
+                    lst[i : i + 2] = [new]
+                    changed[0] = True
+                    continue
+                i += 1
+    if not changed[0]:
+        return func
+    ast.fix_missing_locations(node)
+    return Func(func.module, func.qualname, node, func.cls, func.parent)
+
+
+def guard_clauses_to_else(func):
+    """A Func in which, directly in a loop body, `if C: A; continue` followed by the statements B is written
+    `if C: A else: B` (the same control flow: after A the iteration ends, B runs exactly when C is false); applied from
+    the inside out, so a cascade of guard clauses becomes the nesting it abbreviates.  Returns func itself when nothing applies."""
+    import copy
+
+    node = copy.deepcopy(func.node)
+    changed = [False]
+
+    def tail(lst):
+        i = 0
+        while i < len(lst):
+            st = lst[i]
+            if isinstance(st, ast.If) and not st.orelse and st.body and isinstance(st.body[-1], ast.Continue) and i < len(lst) - 1 and not any(isinstance(x, ast.Continue) for b in st.body[:-1] for x in ast.walk(b)):
+                rest = lst[i + 1 :]
+                tail(rest)
+                st.body = st.body[:-1] or [ast.copy_location(ast.Pass(), st)]
+                st.orelse = rest
+                del lst[i + 1 :]
+                changed[0] = True
+                return
+            i += 1
+
+    for lp in ast.walk(node):
+        if isinstance(lp, (ast.For, ast.While)):
+            tail(lp.body)
+    if not changed[0]:
+        return func
     ast.fix_missing_locations(node)
     return Func(func.module, func.qualname, node, func.cls, func.parent)
 
